@@ -27,26 +27,6 @@ Record fixes := Fixes { fix_phi : bool; fix_alias : bool; fix_for : bool }.
 Definition fx_as_coded := Fixes false false false.
 Definition fx_all := Fixes true true true.
 
-(* free variables (comprehension targets scoped) *)
-Fixpoint efv (bvs : vars) (e : expr) {struct e} : vars :=
-  match e with
-  | EVar x => if vmem x bvs then [] else [x]
-  | ENum _ | ERat _ _ | EBool _ | ECtxVal _ | EOp0 _ => []
-  | EOp1 _ a | EPred _ a | ENot a | EFst a | ESnd a | ELen a | ERange1 a | EEnumerate a
-  | EDim a | ESum a | EAMin a | EAMax a | EAny a | EAll a => efv bvs a
-  | EOp2 _ a b | ERef a b | ERange2 a b | ESize a b => efv bvs a ++ efv bvs b
-  | EOp3 _ a b c | EIf a b c | ERange3 a b c => efv bvs a ++ efv bvs b ++ efv bvs c
-  | ECompare _ es | EAnd es | EOr es | ETuple es | EList es | EZip es | EEmpty es
-  | EMin es | EMax es | ECall _ es | ECtor _ es => flat_map (efv bvs) es
-  | ESlice a lo hi => efv bvs a ++ oexpr_map (efv bvs) lo ++ oexpr_map (efv bvs) hi
-  | EComp gens elt =>
-      (fix go (bvs : vars) (l : list (pat * expr)) : vars :=
-         match l with
-         | [] => efv bvs elt
-         | (p, it) :: l' => efv bvs it ++ go (pvars p ++ bvs) l'
-         end) bvs gens
-  end.
-
 (* ================================================================ Part 1: def-use *)
 Inductive dkind :=
   | KArg                                   (* Argument *)
@@ -535,21 +515,21 @@ with vk (d : nat) (L1 : vars) (st st' : stmt) {struct d} : option vars :=
   | S d' =>
     match st, st' with
     | SAssign p e, SAssign p' e' =>
-        if expr_eqb e e' && pat_scrub_ok L1 p p' then Some (vdiff L1 (pvars p') ++ evars e) else None
+        if expr_eqb e e' && pat_scrub_ok L1 p p' then Some (vdiff L1 (pvars p') ++ efv [] e) else None
     | SIndexAssign x idx e, SIndexAssign x' idx' e' =>
         if String.eqb x x' && vexprs no_leaf [] idx idx' && expr_eqb e e'
-        then Some (x :: flat_map evars idx ++ evars e ++ L1) else None
+        then Some (x :: flat_map (efv []) idx ++ efv [] e ++ L1) else None
     | SIf1 c body, SIf1 c' body' =>
         if expr_eqb c c' then
           match vd d' L1 body body' with
-          | Some Lb => Some (evars c ++ Lb ++ L1)
+          | Some Lb => Some (efv [] c ++ Lb ++ L1)
           | None => None
           end
         else None
     | SIf c t f, SIf c' t' f' =>
         if expr_eqb c c' then
           match vd d' L1 t t', vd d' L1 f f' with
-          | Some Ltr, Some Lf => Some (evars c ++ Ltr ++ Lf)
+          | Some Ltr, Some Lf => Some (efv [] c ++ Ltr ++ Lf)
           | _, _ => None
           end
         else None
@@ -557,31 +537,31 @@ with vk (d : nat) (L1 : vars) (st st' : stmt) {struct d} : option vars :=
         (* if c: <nothing> else: f   ==>   if not c: f *)
         if expr_eqb c c' && pure_na c && forallb noeffect t && vdisj (bound_block t) L1 then
           match vd d' L1 f f' with
-          | Some Lf => Some (evars c ++ Lf ++ L1)
+          | Some Lf => Some (efv [] c ++ Lf ++ L1)
           | None => None
           end
         else
           (* (c itself may be a negation) if c: t else: <nothing>  ==>  if c: t *)
           if expr_eqb c (ENot c') && forallb noeffect f && vdisj (bound_block f) L1 then
             match vd d' L1 t f' with
-            | Some Ltr => Some (evars c ++ Ltr ++ L1)
+            | Some Ltr => Some (efv [] c ++ Ltr ++ L1)
             | None => None
             end
           else None
     | SIf c t f, SIf1 c' t' =>
         if expr_eqb c c' && forallb noeffect f && vdisj (bound_block f) L1 then
           match vd d' L1 t t' with
-          | Some Ltr => Some (evars c ++ Ltr ++ L1)
+          | Some Ltr => Some (efv [] c ++ Ltr ++ L1)
           | None => None
           end
         else None
     | SWhile c body, SWhile c' body' =>
         if expr_eqb c c' then
-          match close_live d' (fun L => vd d' L body body') (evars c ++ L1) with
+          match close_live d' (fun L => vd d' L body body') (efv [] c ++ L1) with
           | Some Lh =>
               (* re-check what the proof uses *)
               match vd d' Lh body body' with
-              | Some Lb => if vincl Lb Lh && vincl L1 Lh && vincl (evars c) Lh then Some Lh else None
+              | Some Lb => if vincl Lb Lh && vincl L1 Lh && vincl (efv [] c) Lh then Some Lh else None
               | None => None
               end
           | None => None
@@ -595,7 +575,7 @@ with vk (d : nat) (L1 : vars) (st st' : stmt) {struct d} : option vars :=
                                         end) L1 with
           | Some Lh =>
               match vd d' Lh body body' with
-              | Some Lb => if vincl (vdiff Lb (pvars p)) Lh && vincl L1 Lh then Some (evars it ++ Lh) else None
+              | Some Lb => if vincl (vdiff Lb (pvars p)) Lh && vincl L1 Lh then Some (efv [] it ++ Lh) else None
               | None => None
               end
           | None => None
@@ -604,13 +584,13 @@ with vk (d : nat) (L1 : vars) (st st' : stmt) {struct d} : option vars :=
     | SContext x e body, SContext x' e' body' =>
         if oident_eqb x x' && expr_eqb e e' then
           match vd d' L1 body body' with
-          | Some Lb => Some (evars e ++ vdiff Lb (ovar x))
+          | Some Lb => Some (efv [] e ++ vdiff Lb (ovar x))
           | None => None
           end
         else None
-    | SAssert e, SAssert e' => if expr_eqb e e' then Some (evars e ++ L1) else None
-    | SEffect e, SEffect e' => if expr_eqb e e' then Some (evars e ++ L1) else None
-    | SReturn e, SReturn e' => if expr_eqb e e' then Some (evars e) else None
+    | SAssert e, SAssert e' => if expr_eqb e e' then Some (efv [] e ++ L1) else None
+    | SEffect e, SEffect e' => if expr_eqb e e' then Some (efv [] e ++ L1) else None
+    | SReturn e, SReturn e' => if expr_eqb e e' then Some (efv [] e) else None
     | SPass, SPass => Some L1
     | _, _ => None
     end
